@@ -855,6 +855,17 @@ func (l *listUsersQuery) expandExclusion(
 				}
 			}
 		case subtractWildcardExists, userIsSubtracted:
+			if fu.relationshipStatus == NoRelationship {
+				// The base itself reports that the user does not hold it (e.g. the base is an
+				// exclusion that subtracted the user): whatever the subtract branch says, the user
+				// is not in the difference.
+				concurrency.TrySendThroughChannel(ctx, foundUser{
+					user:               tuple.StringToUserProto(userKey),
+					relationshipStatus: NoRelationship,
+				}, foundUsersChan)
+				continue
+			}
+
 			if subtractedUser.relationshipStatus == HasRelationship {
 				concurrency.TrySendThroughChannel(ctx, foundUser{
 					user:               tuple.StringToUserProto(userKey),
